@@ -414,3 +414,125 @@ Qed.
 Example sph_valid_example :
   sph_valid {| ver := 5; ptype := 1; shf := 1; apid := 2047; sflags := 2; scount := 16383; dlen := 65535 |}.
 Proof. unfold sph_valid; cbn; lia. Qed.
+
+(* ================= operation histories over a header object (setters) ================= *)
+
+(* the argument of a setter lies in the range of its field *)
+Definition sph_op_in_range (o : sph_op) : Prop :=
+  match o with
+  | SoApid v => 0 <= v <= 2047
+  | SoCount v => 0 <= v <= 16383
+  | SoFlags v => 0 <= v < 4
+  | SoPtype v => 0 <= v < 2
+  | SoShf v => 0 <= v < 2
+  | SoDlen v => 0 <= v <= 65535
+  | SoPack | SoObserve | SoEqFresh => True
+  end.
+
+Lemma sph_apply_valid h o : sph_valid h -> sph_op_in_range o -> sph_valid (sph_apply h o).
+Proof.
+  unfold sph_valid. destruct o; cbn [sph_apply sph_op_in_range ver ptype shf apid sflags scount dlen];
+    intros; lia.
+Qed.
+
+(* pack / observe / compare do not change the object *)
+Lemma sph_observers_pure h :
+  sph_apply h SoPack = h /\ sph_apply h SoObserve = h /\ sph_apply h SoEqFresh = h.
+Proof. repeat split. Qed.
+
+(* each setter changes exactly its own field *)
+Lemma sph_apply_frame h o :
+  let h' := sph_apply h o in
+  ver h' = ver h /\
+  (match o with SoPtype _ => True | _ => ptype h' = ptype h end) /\
+  (match o with SoShf _ => True | _ => shf h' = shf h end) /\
+  (match o with SoApid _ => True | _ => apid h' = apid h end) /\
+  (match o with SoFlags _ => True | _ => sflags h' = sflags h end) /\
+  (match o with SoCount _ => True | _ => scount h' = scount h end) /\
+  (match o with SoDlen _ => True | _ => dlen h' = dlen h end).
+Proof. destruct o; cbn; repeat split. Qed.
+
+Lemma sph_history_valid ops : forall h, sph_valid h -> Forall sph_op_in_range ops ->
+  sph_valid (fold_left sph_apply ops h).
+Proof.
+  induction ops as [|o ops IH]; intros h H F; cbn [fold_left]; [assumption|].
+  inversion F; subst. apply IH; [apply sph_apply_valid|]; assumption.
+Qed.
+
+(* after ANY sequence of setter calls with in-range arguments the object packs to the six octets the
+   standard prescribes for its current field values, reports data length + 7, and decodes back *)
+Theorem sph_history_pack_layout ops h : sph_valid h -> Forall sph_op_in_range ops ->
+  let h' := fold_left sph_apply ops h in
+  sph_pack h' = Ok (sph_layout h') /\ sph_packet_len h' = dlen h' + 7 /\
+  (forall rest, sph_unpack (sph_layout h' ++ rest) = Ok h').
+Proof.
+  intros H F h'. pose proof (sph_history_valid ops h H F) as V. fold h' in V.
+  split; [apply sph_pack_layout; assumption|].
+  split; [apply sph_packet_len_spec|].
+  intros rest. apply sph_unpack_pack. assumption.
+Qed.
+
+Lemma sph_bytes_eqb_refl (b : bytes) : bytes_eqb b b = true.
+Proof. induction b as [|x b IH]; cbn; [reflexivity|]. rewrite Z.eqb_refl. exact IH. Qed.
+
+(* a valid object equals (both ways) a freshly constructed header with its own field values *)
+Theorem sph_eq_fresh_valid h : sph_valid h -> sph_eq_fresh h = Ok (true, true).
+Proof.
+  intros H. unfold sph_eq_fresh.
+  assert (R : 0 <= apid h <= 2047 /\ 0 <= scount h <= 16383 /\ 0 <= dlen h <= 65535)
+    by (unfold sph_valid in H; lia).
+  destruct R as (Ra & Rc & Rd).
+  rewrite (sph_new_ok (ptype h) (apid h) (scount h) (dlen h) (shf h) (sflags h) (ver h)) by assumption.
+  cbn [bind].
+  replace {| ver := ver h; ptype := ptype h; shf := shf h; apid := apid h; sflags := sflags h;
+             scount := scount h; dlen := dlen h |} with h by (destruct h; reflexivity).
+  unfold sph_eq_res. rewrite sph_pack_layout by assumption. cbn [bind].
+  rewrite sph_bytes_eqb_refl. reflexivity.
+Qed.
+
+Corollary sph_history_eq_fresh ops h : sph_valid h -> Forall sph_op_in_range ops ->
+  sph_eq_fresh (fold_left sph_apply ops h) = Ok (true, true).
+Proof. intros H F. apply sph_eq_fresh_valid. apply sph_history_valid; assumption. Qed.
+
+(* from_composite_fields builds exactly what the constructor builds from the same values *)
+Theorem sph_from_composite_is_new t a c d s f v :
+  sph_from_composite t a c d s f v = sph_new t a c d s f v.
+Proof.
+  unfold sph_from_composite.
+  destruct (Z_le_dec 0 a), (Z_le_dec a 2047);
+    try (rewrite pid_new_err by lia; cbn [bind];
+         destruct (sph_new_accepts_iff t a c d s f v) as [_ E]; rewrite E by lia; reflexivity).
+  rewrite pid_new_ok by lia. cbn [bind].
+  destruct (Z_le_dec 0 c), (Z_le_dec c 16383);
+    try (rewrite psc_new_err by lia; cbn [bind];
+         destruct (sph_new_accepts_iff t a c d s f v) as [_ E]; rewrite E by lia; reflexivity).
+  rewrite psc_new_ok by lia. cbn [bind pid_ptype pid_shf pid_apid psc_flags psc_count]. reflexivity.
+Qed.
+
+(* SpacePacket objects: after header setters with in-range arguments and any replacement of the parts,
+   pack() is the standard header of the current values followed by the current parts *)
+Definition spkt_op_in_range (o : spkt_op) : Prop :=
+  match o with SpHdr so => sph_op_in_range so | _ => True end.
+
+Lemma spkt_history_valid ops : forall p, sph_valid (sp_h p) -> Forall spkt_op_in_range ops ->
+  sph_valid (sp_h (fold_left spkt_apply ops p)).
+Proof.
+  induction ops as [|o ops IH]; intros p H F; cbn [fold_left]; [assumption|].
+  inversion F; subst. apply IH; [|assumption].
+  destruct o; cbn [spkt_apply sp_h]; try assumption. apply sph_apply_valid; assumption.
+Qed.
+
+Theorem spkt_history_pack ops p : sph_valid (sp_h p) -> Forall spkt_op_in_range ops ->
+  let p' := fold_left spkt_apply ops p in
+  spkt_pack p' =
+  match shf (sp_h p'), sp_sec p', sp_ud p' with
+  | 1, None, _ => Err EValue
+  | 1, Some s, None => Ok (sph_layout (sp_h p') ++ s)
+  | 1, Some s, Some u => Ok ((sph_layout (sp_h p') ++ s) ++ u)
+  | _, _, None => Err EValue
+  | _, _, Some u => Ok (sph_layout (sp_h p') ++ u)
+  end.
+Proof.
+  intros H F p'. unfold spkt_pack. apply space_packet_pack_spec.
+  apply spkt_history_valid; assumption.
+Qed.
